@@ -13,7 +13,7 @@
 (* PlannerScalar / PlannerSse / PlannerAvx / CallProtocol / Exec and only  *)
 (* ever produce MODEL-DRIFT.                                               *)
 (***************************************************************************)
-EXTENDS PlannerAvx, Field, TLC
+EXTENDS PlannerAvx, Scratch, Field, TLC
 
 CONSTANT Prop      \* "C01" .. "C15", or "ALL"
 
@@ -242,13 +242,27 @@ PlanReport(pid, n, dir, outcome, tree) ==
                         DriftIf(f # << >> /\ f # tree, <<"plan-differs-from-model", planners[pid].kind, planners[pid].elem, n>>))
     /\ UNCHANGED <<cfg, planners, cache, insts, planning, pending, refs>>
 
+\* Faithful layer for scratch plumbing: every node of a client-assembled tree advertises what the constructor formulas
+\* of Scratch.tla predict from its children's advertised lengths, and those lengths suffice for every child call.
+ScratchKinds == {"Dft", "Butterfly", "MixedRadix", "MixedRadixSmall", "GoodThomasAlgorithm", "GoodThomasAlgorithmSmall",
+                 "RadersAlgorithm", "BluesteinsAlgorithm", "Radix4", "Radix3"}
+RECURSIVE ScratchDrift(_)
+ScratchDrift(nd) ==
+    LET chs  == [i \in DOMAIN nd.ch |-> [len |-> nd.ch[i].len, scr |-> nd.ch[i].scr]]
+        here == IF nd.k \in ScratchKinds
+                THEN DriftIf(~(Scr(nd.k, nd.len, chs) = nd.scr /\ Suffices(nd.k, nd.len, chs)),
+                             <<"scratch-model", nd.k, nd.len, nd.scr, Scr(nd.k, nd.len, chs)>>)
+                ELSE 0
+    IN here + SeqSum([i \in DOMAIN nd.ch |-> ScratchDrift(nd.ch[i])])
+
 \* a transform assembled by the client from the public constructors (C12); never panics within preconditions
-Construct(iid, elem, outcome, n, dir, len, rdir, scr) ==
+Construct(iid, elem, outcome, n, dir, len, rdir, scr, tree) ==
     /\ iid \notin DOMAIN insts
     /\ outcome = "ok" /\ len = n /\ rdir = dir
     /\ insts' = insts @@ (iid :> [pid |-> 0, kind |-> "ctor", elem |-> elem, n |-> n, dir |-> dir,
                                   len |-> len, rdir |-> rdir, scr |-> scr])
-    /\ UNCHANGED <<cfg, planners, cache, planning, pending, refs, drift>>
+    /\ drift' = drift + (IF tree = << >> THEN 0 ELSE ScratchDrift(tree))
+    /\ UNCHANGED <<cfg, planners, cache, planning, pending, refs>>
 
 \* C14: generic code may use only ring operations of the element type (and constants converted from f64);
 \* values of a type whose size differs from f32/f64 are never re-typed (their padding survives)
